@@ -47,6 +47,7 @@ def run_property(pid, tier, seed, only=None):
     classes = [c for c in C.REGISTRY if pid in c.properties]
     if only:
         classes = [c for c in classes if only in c.target]
+    gated = [c for c in classes if tier not in getattr(c, "tiers", ("quick", "thorough"))]
     classes = [c for c in classes if tier in getattr(c, "tiers", ("quick", "thorough"))]
     known = _load_json(os.path.join(ROOT, "known_findings.json"), {"findings": []})
     open_findings = {
@@ -71,6 +72,18 @@ def run_property(pid, tier, seed, only=None):
         results += res
         metas.append(meta)
 
+    # a function whose unbounded contract went undecided (restructured code) is handed to its slower bounded stand-in
+    # even in the quick tier: the stand-in then decides the same specification on the restructured code
+    undecided_targets = {r.target for r in results if r.verdict == "unknown" and r.kind not in ("canary",)}
+    for cls in gated:
+        if cls.target in undecided_targets and cls.kind == "bounded":
+            try:
+                res, meta = C.run_contract(cls, tier=tier, cross=False, no_replay=set(open_findings))
+            except Exception as e:
+                continue
+            meta["kind"], meta["doc"] = cls.kind, (cls.__doc__ or "").strip()[:600]
+            results += res
+            metas.append(meta)
     canaries = [r for r in results if r.kind == "canary" and r.clause not in ("cover",)]
     obls = [r for r in results if r.kind not in ("canary", "bounded")]
     bounded = [r for r in results if r.kind == "bounded"]
